@@ -16,7 +16,7 @@
 (*  "value":S,"back":S'}: built from a host value of Go kind K.            *)
 (***************************************************************************)
 EXTENDS VariantHeap, Json, TLC, Held
-VARIABLE l
+VARIABLES l, shared   \* shared: growth elements that were in an array when it was copied (a copy may share them or hold copies of them)
 Trace == ndJsonDeserialize("trace.ndjson")
 F(ok, name) == IF ok THEN "" ELSE name \o "; "
 Slots == 1 .. 4
@@ -41,9 +41,13 @@ Apply(e) ==
     [] e.op = "listput"    -> IF e.i < Len(ls[e.list]) THEN ListPut(e.list, e.i, e.e) ELSE UNCHANGED hvars
     [] OTHER               -> UNCHANGED hvars
 
-ObsFails(o, v2, pp, mm) ==    \* v2, pp, mm = slots, growth elements and changed growth elements after the operation
+\* A copy of an array may share the element objects with the original or hold copies of them ("a clone equals its original",
+\* "mutating a clone never changes the original" hold either way). A growth element that was copied and then changed in place
+\* through one of the arrays therefore shows as changed or unchanged in the others.
+ElemOK(seen, id, pp, mm, sh) == seen = Seen(id, pp, mm) \/ (id \in sh /\ id \in mm /\ seen \in {"nul", "other"})
+ObsFails(o, v2, pp, mm, sh) ==    \* v2, pp, mm = slots, growth elements and changed growth elements after the operation
      F(\A s \in Slots : o.vars[s][1] = v2[s][1], "a variant reports the wrong type")
-  \o F(\A s \in Slots : v2[s][1] = "Array" => o.vars[s][3] = [k \in 1 .. Len(v2[s][2]) |-> Seen(v2[s][2][k], pp, mm)],
+  \o F(\A s \in Slots : v2[s][1] = "Array" => (Len(o.vars[s][3]) = Len(v2[s][2]) /\ \A k \in 1 .. Len(v2[s][2]) : ElemOK(o.vars[s][3][k], v2[s][2][k], pp, mm, sh)),
        "an array variant does not hold exactly its own elements (a change to another variant or to the caller's list is visible, or growth did not fill with nulls)")
   \o F(\A s \in Slots : v2[s][1] \notin {"Array", "Null"} => o.vars[s][2] = v2[s][2], "a scalar variant does not return the value it was given")
 
@@ -61,26 +65,30 @@ HostFails(e) ==
      F(e.type = HostType(e) \/ (e.hostkind = "smallint" /\ e.type \in {"Integer", "Long", "Object"}), "a host value of kind " \o e.hostkind \o " is not given the matching variant type")
   \o F(e.back = e.value, "the typed accessor does not return the host value unchanged")
 
-Init == l = 1 /\ HInit(Slots, Lists)
+PadsOf(vv, s) == IF vv[s][1] = "Array" THEN {vv[s][2][k] : k \in 1 .. Len(vv[s][2])} \cap pads ELSE {}
+\* does the comparison of a and b look at a copied growth element that was changed in place since?
+Blurred(vv, a, b, mm, sh) == vv[a][1] = "Array" /\ vv[b][1] = "Array" /\ \E k \in 1 .. Len(vv[a][2]) : vv[a][2][k] \in sh \cap mm
+Init == l = 1 /\ HInit(Slots, Lists) /\ shared = {}
 Step ==
   /\ l <= Len(Trace)
   /\ l' = l + 1
   /\ LET e == Trace[l] IN
      IF e.op = "host"
-     THEN /\ UNCHANGED hvars
+     THEN /\ UNCHANGED <<vs, ls, pads, mut, shared>>
           /\ LET f == HostFails(e) IN Report(l, f, Trace[l])
      ELSE /\ Apply(e)
+          /\ shared' = IF e.op = "new" THEN {} ELSE IF e.op = "copy" THEN shared \cup PadsOf(vs, e.v) ELSE shared
           /\ LET eqf == IF \E i \in 1 .. Len(e.obs.eq) : e.obs.eq[i][3] = "panic" THEN "equality failed (panic) instead of answering; "
                         ELSE IF \E i \in 1 .. Len(e.obs.eq) :
                                    LET x == e.obs.eq[i]
-                                       want == EqualsExpectIn(vs', x[1], x[2])
+                                       want == IF Blurred(vs', x[1], x[2], mut', shared') \/ Blurred(vs', x[2], x[1], mut', shared') THEN "either" ELSE EqualsExpectIn(vs', x[1], x[2])
                                    IN (want = "yes" /\ x[3] # "true") \/ (want = "no" /\ x[3] # "false")
                              THEN "equality gives the wrong answer (a clone must equal its original; different values must differ); "
                         ELSE IF \E i, j \in 1 .. Len(e.obs.eq) : e.obs.eq[i][1] = e.obs.eq[j][2] /\ e.obs.eq[i][2] = e.obs.eq[j][1]
                                                                     /\ e.obs.eq[i][3] # e.obs.eq[j][3]
                              THEN "equality is not symmetric; " ELSE ""
-                 f == ObsFails(e.obs, vs', pads', mut') \o eqf
+                 f == ObsFails(e.obs, vs', pads', mut', shared') \o eqf
              IN Report(l, f, Trace[l])
-Spec == Init /\ [][Step]_<<l, vs, ls, pads, mut>>
+Spec == Init /\ [][Step]_<<l, vs, ls, pads, mut, shared>>
 Accepted == TLCGet("stats").diameter - 1 = Len(Trace)
 =============================================================================
